@@ -58,6 +58,8 @@ func engineLoop(c *Ctx, id string) (run, body *ssa.Function, acq *ssa.Call) {
 func fk(fn *ssa.Function) string { return FuncKey(fn) }
 
 func runC03(c *Ctx) {
+	c.Rule("O3.8", "a drained shared profile says so: the engine stops acquiring ammo when Schedule.Left() reaches 0, so the token index of doAtSchedule is drawn exactly once per Next by one read-modify-write, is compared with n as drawn, and Left() is clamped at 0 (the rules of O2.1 and O2.8, shared) - an index pushed past n with an unclamped Left() leaves the instances acquiring and discarding ammo for ever")
+	c.Borrow("C02", runC02, map[string]string{"O2.1": "O3.8", "O2.8": "O3.8"})
 	c.Rule("O3.1", "acquire/release pairing: on every path on which Provider.Acquire returned ok, Provider.Release(that ammo) runs exactly once and never before Gun.Shoot; on the !ok path it runs zero times and the loop ends with the out-of-ammo sentinel the await loop recognises")
 	c.Rule("O3.2", "no use after release: the acquired ammo is only passed to Release, Gun.Shoot and debug logging; it is not stored, sent, captured or returned")
 	c.Rule("O3.3", "token after ammo, ammo only while tokens may remain: Waiter.Wait is dominated by the ok edge of Acquire; Acquire is dominated by the false edge of Waiter.IsFinished")
